@@ -13,12 +13,6 @@ import (
 // C01, schedule part: interleavings of the per-peer receive goroutines, FSM state changes and
 // management operations, explored exhaustively up to a preemption bound.
 
-func c01SchedBots(w *schedWorld, n int) {
-	for i := 0; i < n; i++ {
-		w.addBot(simBotKinds['e'](i))
-	}
-	w.advance(time.Second)
-}
 
 func init() {
 	rs := &simRoutesScenario{}
@@ -123,7 +117,11 @@ func TestVerif_C01_Sched(t *testing.T) {
 	if vr.Thorough() {
 		bound, budget = 2, 10*time.Minute
 	}
-	for _, name := range []string{"c01.s1", "c01.s1w", "c01.s2", "c01.s3", "c01.s4"} {
+	names := []string{"c01.s1", "c01.s2", "c01.s3"}
+	if vr.Thorough() {
+		names = []string{"c01.s1", "c01.s1w", "c01.s2", "c01.s3", "c01.s4"}
+	}
+	for _, name := range names {
 		schedExploreSharded(t, r, name, bound, 1, budget)
 	}
 }
